@@ -27,7 +27,7 @@ MANIFEST = dict(
          "(pair layout included, equality up to key order) is kept visible; the pair layout and depth > 111 are covered "
          "differentially only: the model text is compared with to_json and the statement itself is executed on the "
          "implementation over all 32 option combinations. Counter-example theorem for the open finding C11-e (nesting > 111). "
-         "The model follows the code with fix patches C11-a, C11-c, C11-d applied.",
+         "The model follows the code with fix patches C11-a, C11-c, C11-d, C11-f applied.",
     note="json.loads and json.dumps(ensure_ascii=False) are modelled and validated by their own streams; floats are opaque lexemes; "
          "the constructor side (n0dict(text) == json.loads(text)) is differential only.",
     design_ref="5/C11",
@@ -631,7 +631,7 @@ def run(ctx):
         "json.loads (C scanner of CPython 3.12) and json.dumps(s, ensure_ascii=False) are modelled by hand and validated by the streams json.loads / json.esc; lone surrogate escapes are outside the model (unsupported)",
         "indent is a natural number",
         "equality of decoded values is typed (bool/int/float/str/None distinguished) and ignores dict order, as Python's == on dicts does",
-        "the model follows n0pretty with fix patches C11-a (JSON string escaping), C11-c (pair layout comma), C11-d (skip_empty_arrays) applied",
+        "the model follows n0pretty with fix patches C11-a (JSON string escaping), C11-c (pair layout comma), C11-d (skip_empty_arrays), C11-f (literal dict reads) applied",
     ]
     ctx.extra["trusted_base"] = [
         "hand-written reader model of json.loads (Model/Json.lean, parseValue/scanString/nscan) validated on valid, mutated and hand-made invalid texts",
